@@ -56,7 +56,8 @@ func (e *Engine) refineByteVal(st *State, v ssa.Value, set ByteSet) {
 			return
 		}
 		st.setv(v, av)
-		if av.linked {
+		if av.linked && av.alt.and(av.set).empty() {
+			// (with alternatives left, the value need not be the input byte)
 			st.refineByte(av.coord, av.set)
 		}
 		if av.idx != nil && !av.set.has(0) {
@@ -716,6 +717,12 @@ func (e *Engine) call(fi *fnInfo, st *State, in *ssa.Call) []*State {
 					setRes(st, intVal(int64(a.lenLo)))
 				} else {
 					setRes(st, AbsVal{k: kLenOf, lenOf: cc.Args[0]})
+				}
+			case vLit:
+				if a.field < 0 && a.lit != nil && a.lit.Elems != nil {
+					setRes(st, intVal(int64(len(a.lit.Elems))))
+				} else {
+					setRes(st, top)
 				}
 			case vStrSet:
 				var ls []int64
